@@ -488,6 +488,49 @@ func suiteSession(h *H) {
 			dsrc.stop()
 		}
 	}
+	// ---- two sources that name one entry as a symbolic link and as a directory: whichever of the two is created,
+	// the other one's attributes are not applied through the link to something outside the destination (C05)
+	for _, order := range []string{"link-first", "dir-first"} {
+		dl := filepath.Join(base, "duplinks-"+order)
+		outside := filepath.Join(dl, "outside")
+		os.MkdirAll(outside, 0o755)
+		outT := time.Unix(oldT+777, 0)
+		os.Chtimes(outside, outT, outT)
+		os.MkdirAll(filepath.Join(dl, "s1"), 0o755)
+		os.Symlink("abs/", filepath.Join(dl, "s1", "d"))
+		os.Symlink(outside, filepath.Join(dl, "s1", "abs"))
+		os.MkdirAll(filepath.Join(dl, "s2", "d"), 0o755)
+		os.MkdirAll(filepath.Join(dl, "s2", "ro"), 0o755)
+		dT := time.Unix(oldT+5, 0)
+		for _, n := range []string{"d", "ro"} {
+			os.Chtimes(filepath.Join(dl, "s2", n), dT, dT)
+			os.Chmod(filepath.Join(dl, "s2", n), 0o555)
+		}
+		srcs := []string{filepath.Join(dl, "s1") + "/", filepath.Join(dl, "s2") + "/"}
+		if order == "dir-first" {
+			srcs[0], srcs[1] = srcs[1], srcs[0]
+		}
+		dst := filepath.Join(dl, "dst")
+		os.MkdirAll(dst, 0o755)
+		_, err := maincmd.Main(context.Background(), quietEnv(), append(append([]string{"rsync", "-a"}, srcs...), dst), nil)
+		out, v := "ok", ""
+		if err != nil {
+			out = "err"
+		}
+		if fi, serr := os.Stat(outside); serr != nil || fi.Mode().Perm() != 0o755 || !fi.ModTime().Equal(outT) {
+			v = fmt.Sprintf("FAIL[C05] a directory outside the destination had its mode or modification time changed (now %v, %v) through a link that one source put in the place of the other source's directory", fi.Mode().Perm(), fi.ModTime().Unix())
+		}
+		h.emit(fmt.Sprintf("!session-duplinks seed=%d %s", h.seed, order), out, v, true)
+		h.stat("session.duplinks")
+		os.Chmod(filepath.Join(dl, "s2", "d"), 0o755)
+		os.Chmod(filepath.Join(dl, "s2", "ro"), 0o755)
+		filepath.Walk(dst, func(p string, info os.FileInfo, err error) error {
+			if err == nil && info.IsDir() {
+				os.Chmod(p, 0o755)
+			}
+			return nil
+		})
+	}
 	// ---- the command line as a user's shell runs it: local copies with the process restrictions (landlock) the
 	// implementation applies to itself when the kernel offers them. A run that reports success has copied the source.
 	if self, err := os.Executable(); err == nil {
@@ -525,34 +568,60 @@ func suiteSession(h *H) {
 			opts       []string
 			stay, gone []string          // destination paths that must survive / must be removed
 			want       map[string]string // content a destination file must have afterwards
+			mayFail    bool              // the command line may be rejected: then by every arrangement alike, and nothing changes
 		}
 		f := func(c string) sNode { return sNode{kind: 'f', content: []byte(c), perm: 0o644, mtime: oldT} }
 		dnode := sNode{kind: 'd', perm: 0o755, mtime: oldT}
 		fixtures := []fx{
 			{"protected-dirlink", sTree{"a": f("a")}, sTree{"a": f("a"), "cache": sNode{kind: 'l', target: "zdir"}, "cache~after": f("x"), "zdir": dnode, "zdir/inner": f("y"), "zz": f("z")},
-				[]string{"-a", "--delete", "--exclude=cache"}, []string{"a", "cache"}, []string{"cache~after", "zdir", "zz"}, nil},
+				[]string{"-a", "--delete", "--exclude=cache"}, []string{"a", "cache"}, []string{"cache~after", "zdir", "zz"}, nil, false},
 			{"protected-file", sTree{"a": f("a")}, sTree{"a": f("a"), "cache": f("c"), "cache~after": f("x"), "zz": f("z")},
-				[]string{"-a", "--delete", "--exclude=cache"}, []string{"a", "cache"}, []string{"cache~after", "zz"}, nil},
+				[]string{"-a", "--delete", "--exclude=cache"}, []string{"a", "cache"}, []string{"cache~after", "zz"}, nil, false},
 			{"protected-dir", sTree{"a": f("a")}, sTree{"a": f("a"), "cache": dnode, "cache/in": f("c"), "cache~after": f("x"), "zz": f("z")},
-				[]string{"-a", "--delete", "--exclude=cache"}, []string{"a", "cache", "cache/in"}, []string{"cache~after", "zz"}, nil},
+				[]string{"-a", "--delete", "--exclude=cache"}, []string{"a", "cache", "cache/in"}, []string{"cache~after", "zz"}, nil, false},
 			{"protected-below-extraneous", sTree{"a": f("a")}, sTree{"a": f("a"), "keep.db": f("top"), "olddir": dnode, "olddir/keep.db": f("k"), "olddir/other": f("o")},
-				[]string{"-a", "--delete", "--exclude=keep.db"}, []string{"a", "keep.db", "olddir/keep.db"}, []string{"olddir/other"}, nil},
+				[]string{"-a", "--delete", "--exclude=keep.db"}, []string{"a", "keep.db", "olddir/keep.db"}, []string{"olddir/other"}, nil, false},
 			// options that decide on the receiving side whether a file is requested: they must arrive there whoever sends
 			{"ignore-times", sTree{"f": sNode{kind: 'f', content: []byte("NEW!"), perm: 0o644, mtime: oldT}}, sTree{"f": sNode{kind: 'f', content: []byte("OLD!"), perm: 0o644, mtime: oldT}},
-				[]string{"-rt", "-I"}, []string{"f"}, nil, map[string]string{"f": "NEW!"}},
+				[]string{"-rt", "-I"}, []string{"f"}, nil, map[string]string{"f": "NEW!"}, false},
 			{"quick-check", sTree{"f": sNode{kind: 'f', content: []byte("NEW!"), perm: 0o644, mtime: oldT}}, sTree{"f": sNode{kind: 'f', content: []byte("OLD!"), perm: 0o644, mtime: oldT}},
-				[]string{"-rt"}, []string{"f"}, nil, map[string]string{"f": "OLD!"}},
+				[]string{"-rt"}, []string{"f"}, nil, map[string]string{"f": "OLD!"}, false},
 			{"checksum", sTree{"f": sNode{kind: 'f', content: []byte("NEW!"), perm: 0o644, mtime: oldT}}, sTree{"f": sNode{kind: 'f', content: []byte("OLD!"), perm: 0o644, mtime: oldT}},
-				[]string{"-rt", "-c"}, []string{"f"}, nil, map[string]string{"f": "NEW!"}},
+				[]string{"-rt", "-c"}, []string{"f"}, nil, map[string]string{"f": "NEW!"}, false},
 			// a directory-only rule does not protect a file of that name: whoever sends, and whoever applies the rule
 			{"dironly-rule-and-file", sTree{"a": f("a")}, sTree{"a": f("a"), "cache": f("a file, not a directory"), "zdir": dnode, "zdir/cache": f("nested file")},
-				[]string{"-a", "--delete", "--exclude=cache/"}, []string{"a"}, []string{"cache", "zdir"}, nil},
+				[]string{"-a", "--delete", "--exclude=cache/"}, []string{"a"}, []string{"cache", "zdir"}, nil, false},
 			{"rule-names-root", sTree{"keep": f("k"), "src": f("nested same name"), "other": dnode, "other/file": f("o")}, sTree{},
-				[]string{"-a", "--exclude=src"}, []string{"keep", "other", "other/file"}, []string{"src"}, nil},
+				[]string{"-a", "--exclude=src"}, []string{"keep", "other", "other/file"}, []string{"src"}, nil, false},
 			{"dironly-rule-names-root", sTree{"keep": f("k"), "src": dnode, "src/x": f("x"), "zlast": f("z")}, sTree{},
-				[]string{"-a", "--exclude=src/"}, []string{"keep", "zlast"}, []string{"src", "src/x"}, nil},
+				[]string{"-a", "--exclude=src/"}, []string{"keep", "zlast"}, []string{"src", "src/x"}, nil, false},
+			// a dry run runs to completion where the real run would: a file in the place of a source directory
+			{"dry-file-in-place-of-dir", sTree{"a": dnode, "a/b": f("b"), "z": f("z")}, sTree{"a": f("a file"), "z": f("z")},
+				[]string{"-a", "-n"}, []string{"a", "z"}, []string{"a/b"}, map[string]string{"a": "a file"}, false},
+			{"dry-dir-in-place-of-file", sTree{"a": f("now a file"), "z": f("z")}, sTree{"a": dnode, "a/b": f("b"), "z": f("z")},
+				[]string{"-a", "-n", "--delete"}, []string{"a", "a/b", "z"}, nil, map[string]string{"a/b": "b"}, false},
+			// without recursion: -d copies the top level of a directory given with a trailing slash; --delete next to it must
+			// not remove what the source has (or the combination is refused)
+			{"dirs-top-level", sTree{"top": f("t"), "sub": dnode, "sub/f": f("deeper")}, sTree{},
+				[]string{"-dt"}, []string{"top", "sub"}, []string{"sub/f"}, map[string]string{"top": "t"}, false},
+			{"dirs-delete", sTree{"a": f("a"), "sub": dnode, "sub/x": f("x")}, sTree{"a": f("a"), "b": f("b"), "sub": dnode, "sub/y": f("y")},
+				[]string{"-dt", "--delete"}, []string{"a", "sub"}, nil, map[string]string{"a": "a"}, true},
+			// a list entry that is a file where the destination has a non-empty directory holding a protected entry: the
+			// protected entry survives whatever becomes of the transfer (making room is no second deletion pass)
+			{"typechange-protected-file", sTree{"a": f("a"), "x": f("a file now")}, sTree{"a": f("a"), "x": dnode, "x/keep": f("k"), "x/other": f("o")},
+				[]string{"-a", "--delete", "--exclude=keep"}, []string{"a", "x/keep"}, nil, map[string]string{"x/keep": "k"}, true},
+			{"typechange-protected-link", sTree{"a": f("a"), "x": sNode{kind: 'l', target: "a"}}, sTree{"a": f("a"), "x": dnode, "x/keep": f("k"), "x/other": f("o")},
+				[]string{"-a", "--delete", "--exclude=keep"}, []string{"a", "x/keep"}, nil, map[string]string{"x/keep": "k"}, true},
+			// rule syntax beyond '- NAME' / '+ NAME' is honoured or refused, never read as something else
+			{"filter-protect-syntax", sTree{"a": f("a")}, sTree{"a": f("a"), "keep": f("k")},
+				[]string{"-a", "--delete", "-f", "P keep"}, []string{"a", "keep"}, nil, nil, true},
+			{"filter-merge-syntax", sTree{".rsync-filter": f("- a\n"), "a": f("a"), "b": f("b")}, sTree{},
+				[]string{"-a", "-f", ": .rsync-filter"}, []string{"b"}, []string{"a"}, nil, true},
+			{"filter-empty-rule", sTree{"a": f("a"), "zzz": f("z")}, sTree{},
+				[]string{"-r", "--filter", "", "--exclude", "zzz"}, []string{"a"}, []string{"zzz"}, nil, true},
 		}
 		for _, fxr := range fixtures {
+			outcomes := ""
 			for _, arr := range []byte("LPU") {
 				caseNo++
 				dir := filepath.Join(base, fmt.Sprintf("fx%d", caseNo))
@@ -561,17 +630,67 @@ func suiteSession(h *H) {
 				os.MkdirAll(dstRoot, 0o755)
 				fxr.src.write(srcRoot)
 				fxr.dst.write(dstRoot)
+				beforeFx := snapshot(dstRoot)
 				out := runArr(arr, fxr.opts, srcRoot, true, dstRoot)
 				after := snapshot(dstRoot)
 				v := ""
-				if out != "ok" {
+				if out == "ok" {
+					outcomes += "+"
+				} else {
+					outcomes += "-"
+				}
+				dryFx := strings.HasPrefix(fxr.tag, "dry-")
+				if out != "ok" && !fxr.mayFail {
 					v = "FAIL[C01] the transfer failed: " + strings.SplitN(out, "\n", 2)[0]
+					if dryFx {
+						v = "FAIL[C10] the dry run did not run to completion where the real run does: " + strings.SplitN(out, "\n", 2)[0]
+					}
+				}
+				if (dryFx || out != "ok" && fxr.mayFail && !strings.HasPrefix(fxr.tag, "typechange-")) && v == "" {
+					for _, pth := range beforeFx.keys() {
+						b, a2 := beforeFx[pth], after[pth]
+						if a2.kind != b.kind || !bytes.Equal(a2.content, b.content) || a2.mtime != b.mtime {
+							if dryFx {
+								v = fmt.Sprintf("FAIL[C10] the dry run changed %q", pth)
+							} else {
+								v = fmt.Sprintf("FAIL[C09] the refused command line (options %v) changed %q before it failed", fxr.opts, pth)
+							}
+							break
+						}
+					}
+					if len(after) != len(beforeFx) && v == "" && dryFx {
+						v = "FAIL[C10] the dry run created entries in the destination"
+					}
+				}
+				if out != "ok" && fxr.mayFail && v == "" {
+					for _, pth := range fxr.stay {
+						if b, was := beforeFx[pth]; was {
+							if a2, ok := after[pth]; !ok || !bytes.Equal(a2.content, b.content) {
+								v = fmt.Sprintf("FAIL[C09] %q, which the list names or the exclude rule protects, was removed or changed by a run that failed (options %v)", pth, fxr.opts)
+							}
+						}
+					}
+				}
+				if out != "ok" && fxr.mayFail {
+					h.emit(fmt.Sprintf("!session-fixture seed=%d %s arr=%c", h.seed, fxr.tag, arr), "refused", v, true)
+					h.stat("session.fixture")
+					os.RemoveAll(dir)
+					continue
 				}
 				for _, pth := range fxr.stay {
 					if _, ok := after[pth]; !ok && v == "" {
 						v = fmt.Sprintf("FAIL[C13] %q is missing after the transfer (options %v): it is listed and not excluded, or protected by the rule", pth, fxr.opts)
+						if strings.HasPrefix(fxr.tag, "dirs-") {
+							v = fmt.Sprintf("FAIL[C14] %q is missing after the transfer (options %v): -d copies the top level of a directory given with a trailing slash", pth, fxr.opts)
+						}
 						if _, wasThere := fxr.dst[pth]; wasThere {
 							v = fmt.Sprintf("FAIL[C09] %q, which the exclude rule protects (or the list names), was removed (options %v)", pth, fxr.opts)
+							if strings.HasPrefix(fxr.tag, "filter-") {
+								v += " || FAIL[C13] the rule was read as something else than the user wrote"
+							}
+							if strings.HasPrefix(fxr.tag, "dirs-") {
+								v += " || FAIL[C14] without recursion the sender lists less than the deleting side assumes"
+							}
 							if fxr.tag == "protected-below-extraneous" {
 								v = fmt.Sprintf("FAIL[C09] entry %q protected by an exclude rule was deleted together with the extraneous directory above it (such a directory is removed with everything in it)", pth)
 							}
@@ -598,6 +717,16 @@ func suiteSession(h *H) {
 				h.emit(fmt.Sprintf("!session-fixture seed=%d %s arr=%c", h.seed, fxr.tag, arr), strings.SplitN(out, ":", 2)[0], v, true)
 				h.stat("session.fixture")
 				os.RemoveAll(dir)
+			}
+			if fxr.mayFail {
+				v := ""
+				if strings.Contains(outcomes, "+") && strings.Contains(outcomes, "-") {
+					v = fmt.Sprintf("FAIL[C14] the command line with options %v is carried out or fails depending on who sends (local, pull, upload: %s)", fxr.opts, outcomes)
+					if strings.HasPrefix(fxr.tag, "filter-") {
+						v += " || FAIL[C13]"
+					}
+				}
+				h.emit(fmt.Sprintf("!session-fixture-agree seed=%d %s", h.seed, fxr.tag), outcomes, v, true)
 			}
 		}
 	}
